@@ -8,10 +8,10 @@ def families(tier):
     if tier == "quick":
         return D.adj_family(SEED + 190, 24, maxlen=5, budget=5000) + D.acmd_family(SEED + 191, 9, maxlen=4, budget=4000) + D.acmd_hole_defs(SEED) + \
             D.acmd_alt_family(SEED + 192, 6, maxlen=4, budget=3000) + D.adj_alt_family(SEED + 194, 8, maxlen=5, budget=4000) + \
-            D.littag_family(SEED + 195, 9, maxlen=4, budget=3000)
+            D.littag_family(SEED + 195, 9, maxlen=4, budget=3000) + D.wide_family(SEED + 196, 6, maxlen=5, budget=4000)
     return D.adj_family(SEED + 190, 90, maxlen=6, budget=80000) + D.acmd_family(SEED + 191, 45, maxlen=6, budget=80000) + D.acmd_hole_defs(SEED) + \
         D.acmd_alt_family(SEED + 192, 24, maxlen=5, budget=40000) + D.adj_alt_family(SEED + 194, 32, maxlen=6, budget=50000) + \
-        D.littag_family(SEED + 195, 27, maxlen=5, budget=30000)
+        D.littag_family(SEED + 195, 27, maxlen=5, budget=30000) + D.wide_family(SEED + 196, 18, maxlen=6, budget=40000)
 
 
 def gen(rnd, d):
